@@ -49,6 +49,8 @@ def _strategy(draw):
         spec["fix"] = {"form": "index", "idx": idx}
     spec["new_prices"] = draw(st.booleans())
     spec["split"] = draw(st.sampled_from([None, None, None, "6h", "12h", "d"]))
+    # call form: grid passed with the call, or set beforehand through set_timegrid (documented default of `timegrid`)
+    spec["preset_grid"] = spec["split"] is None and draw(st.integers(0, 3)) == 0
     if spec["new_prices"]:
         spec["prices2"] = {k: (draw(gen.price_series(T)) if k.startswith("p") and not k.startswith("pm") else v)
                            for k, v in spec["prices"].items()}
@@ -65,7 +67,7 @@ def check(spec):
     T = g["T"]
     fx = spec["fix"]
     out.label("form:" + fx["form"], "new_prices" if spec["new_prices"] else "same_prices")
-    base = {k: v for k, v in spec.items() if k not in ("fix", "new_prices", "prices2", "split")}
+    base = {k: v for k, v in spec.items() if k not in ("fix", "new_prices", "prices2", "split", "preset_grid")}
     split = spec.get("split")
     out.label("build:split" if split else "build:monolithic")
     r0 = obs.Run(base, split=split)
@@ -99,7 +101,8 @@ def check(spec):
     if is_err(ru.op):
         return out.drop("setup_error_new_prices")
     fixarg = {"I": I if not isinstance(I, list) else list(I), "x": x0.copy()}
-    rf = obs.Run(s2, split=split, fix_time_window=fixarg)
+    rf = obs.Run(s2, split=split, fix_time_window=fixarg, preset_grid=bool(spec.get("preset_grid")))
+    out.label("call:grid_set_beforehand" if spec.get("preset_grid") else None)
     if is_err(rf.op):
         return out.fail("%sset-up with fix_time_window (%s) raised %s" % ("split " if split else "", fx["form"], rf.op.short()))
     opf, opu = rf.op, ru.op
